@@ -167,3 +167,96 @@ def _table_domain(rep):
     missing = sorted(set(SPEC_BUILTINS) - keys)
     rep.notes['builtin_table'] = {'entries': len(keys), 'unknown_to_spec': extra, 'absent_from_code': missing}
     return extra, missing
+
+
+# ---------------------------------------------------------------------------------------------
+# lexer / parser layer (spec/SQLexer.tla, SQGrammar.tla, TraceParse.tla; harness/lexparse.py)
+# ---------------------------------------------------------------------------------------------
+def _lexparse():
+    import importlib
+    hp = os.path.join(common.VERIF, 'harness')
+    if hp not in sys.path:
+        sys.path.insert(0, hp)
+    return importlib.import_module('lexparse')
+
+
+def _lexparse_check(prop, fn, tier, seed, rule, extra=None):
+    rep = Report(prop, tier, seed)
+    lp = _lexparse()
+    open_devs = [d for d in engine.open_deviations() if d in lp.ALL_DEVIATIONS] + list(lp.IMPL_DETAIL)
+    rep.notes['rule'] = rule
+    try:
+        st = getattr(lp, fn)(tier, seed, tuple(open_devs))
+        if extra:
+            for e in extra:
+                lp._merge(st, e(lp, tier, seed, tuple(open_devs)))
+            st = lp._view(st, prop)
+    except lp.MachineryError as e:
+        rep.machinery.append(str(e)[-2000:])
+        return rep.finish()
+    rep.states = int(st.get('states', 0))
+    rep.transitions = int(st.get('transitions', 0)) or rep.states
+    rep.traces = int(st.get('traces_validated', 0))
+    rep.evaluations = int(st.get('evaluations', 0))
+    rep.distinct = set(range(int(st.get('distinct', 0))))
+    rep.samples = list(st.get('samples', []))[:8]
+    rep.exhaustive = True
+    rep.notes['runs'] = st.get('runs', [])[:40]
+    rep.notes['by_explanation'] = st.get('by_explanation', {})
+    mine = {f['deviation'] for f in engine.load_known_findings() if f.get('property') == prop and f.get('status') == 'open'}
+    other = {}
+    for m in st.get('mismatches', []):
+        ex = m.get('explained_by')
+        if ex:
+            if m.get('non_defect'):
+                continue
+            for d in str(ex).split('+'):
+                if d in mine:
+                    rep.known.append((d, engine.finding_text(d)))
+        else:
+            clause = str(m.get('kind') or m.get('clause'))
+            if clause not in RELEVANT_CLAUSES[prop]:
+                # differences in observables this property does not speak about (internal lexer residue, number of
+                # tokens read ahead, another property's clause, a listed deviation that the code no longer shows)
+                # are recorded, not reported: they are the business of the checks that own them
+                other[clause] = other.get(clause, 0) + 1
+                continue
+            rep.violation('%s: clause %s on %r: specified %s, observed %s' % (m.get('origin'), clause, m.get('input'),
+                                                                         str(m.get('expected'))[:200], str(m.get('observed'))[:200]), m)
+    if other:
+        rep.notes['differences_outside_this_property'] = other
+    return rep.finish()
+
+
+RELEVANT_CLAUSES = {
+    'C06': {'accept', 'tree', 'lex.tokens'},
+    'C15': {'accept', 'tree', 'layout.want', 'lex.tokens'},
+    'C16': {'kind', 'class', 'illegalchar', 'lex.err', 'lex.errchar', 'crash', 'names.err'},
+    'C18': {'names.list', 'names.err', 'names.intree'},
+    'C20': {'token', 'line'},
+}
+
+
+def check_C06(tier, seed):
+    return _lexparse_check('C06', 'check_C06', tier, seed,
+                           'TLC: all token strings up to a length bound over 18 alphabet groups (MC_Parse) parsed by the normative '
+                           'precedence-climbing parser of SQGrammar.tla, itself model-checked against the declarative grammar+table '
+                           'reading (SQGrammarValid: Sound/Complete/Unique); every string rendered to text and parsed by the real '
+                           'SqParser (accept/reject, tree, offending token); random sentences, one-token mutations and the test-suite '
+                           'sources validated by TLC (TraceParse)',
+                           extra=[lambda lp, tier, seed, devs: lp.check_C06_spec(tier, seed, devs)] if tier != 'quick' else None)
+
+
+def check_C15(tier, seed):
+    return _lexparse_check('C15', 'check_C15', tier, seed,
+                           'TLC: token strings with layout variants (MC_Parse suite C15) + layout rewrites (spaces/tabs, comments, line '
+                           'breaks in brackets, ; vs newline vs CRLF, blank statements, trailing commas, redundant parentheses, the '
+                           'three call spellings) of random trees: Parse(Lex(Unparse(t, layout))) = t checked by TLC per record and '
+                           'against the real parser')
+
+
+def check_C20(tier, seed):
+    return _lexparse_check('C20', 'check_C20', tier, seed,
+                           'TLC: token strings with separators and brackets before a stray token (MC_Parse suite C20); valid programs '
+                           'made invalid by a stray token at every position with mixtures of newline/CRLF/; and multi-line literals, '
+                           'truncations: message must name the token and its physical line (ErrMsg of SQGrammar.tla)')
